@@ -91,8 +91,14 @@ pub fn def(ctx: &Ctx) -> PropDef {
     let mut subs: Vec<Box<dyn SubCheck>> = Vec::new();
     for ty in gens::all_types_with_jitter() {
         let max_ops = t.pick(40, 120);
-        let cases = if ty == Ty::Jitter { t.pick(1500, 60_000) } else { t.pick(2500, 100_000) };
-        subs.push(PSub::boxed(format!("hist/{}", ty.name()), cases, move || strategy(ty, max_ops), check_hist));
+        if ty == Ty::Jitter {
+            // the scripted-timer cases are the expensive ones: several parallel parts
+            for part in 0..8 {
+                subs.push(PSub::boxed(format!("hist/{}/{}", ty.name(), part), t.pick(500, 25_000), move || strategy(ty, max_ops), check_hist));
+            }
+        } else {
+            subs.push(PSub::boxed(format!("hist/{}", ty.name()), t.pick(6000, 300_000), move || strategy(ty, max_ops), check_hist));
+        }
     }
     if ctx.tier == crate::engine::Tier::Thorough {
         subs.push(crate::props::fuzzsub::FuzzSub::boxed("fz_hist", "C05", 400000, false));
